@@ -580,6 +580,9 @@ def main(argv):
                  "rule": "programs are generated from the property's profile (seeded), each run under one seeded schedule of the controlled scheduler on the real crate; non-trivial = the run contains a signal hand-off (st/cas on a signal) or a park; distinct = distinct sequence of lock/unlock/st/cas/park/unpark/wake/ret events"},
         "linearizability": {"programs": stats.get("lin_programs", 0), "model_outcomes_enumerated": stats.get("lin_outcomes", 0),
                             "explorations_cut_off": stats.get("lin_incomplete", 0)},
+        "protocol_acceptor": {"mutex_steps_accepted": stats.get("proto_mutex_steps", 0), "signal_lifetimes_accepted": stats.get("proto_signals", 0),
+                              "signal_steps_accepted": stats.get("proto_signal_steps", 0),
+                              "rule": "each scheduled run's lock events and per-signal events are replayed through MutexM.step / SigM.step (Lean exe protocheck, instantiated with the extracted orderings and constants); the run must be an execution of the models that never reaches racy/dangling"},
         "explanation": spec.get("explanation", ""),
     }
     ev = {"property_id": pid, "tier": tier, "seed": seed, "level": level, "coverage": cov,
